@@ -86,6 +86,11 @@ def _lemma_work(job):
                 rep.engine_error(f"lemma {name} could not be evaluated: {p.kind} {p.value}")
                 continue
             status, model, dt = it.prove(p.pc, p.value)
+            if status == "unknown":
+                status, model, dt = it.prove(p.pc, p.value, timeout_ms=120000)
+                if status == "unknown":
+                    rep.downgraded.append({"function": f"lemma:{name}", "reason": ["solver undecided within its budget"], "downgraded": "proof->undecided (solver budget)"})
+                    continue
             if status.startswith("discharged"):
                 rep.ok(full, "z3", dt, "lemma", f"lemma:{name}")
             else:
